@@ -75,6 +75,8 @@ class MuxComp(ExplicitComponent):
         kwgs = dict(options)
         in_shape = np.asarray(options['val']).shape \
             if options['shape'] is None else options['shape']
+        if isinstance(in_shape, (int, np.integer)):
+            in_shape = (in_shape,)
         in_size = shape_to_len(in_shape)
         out_shape = list(in_shape)
         out_shape.insert(options['axis'], vec_size)
